@@ -51,6 +51,7 @@ class GenCtx:
         self.with_subs: List[str] = []
         self.group_cfgs: List[Dict[str, Any]] = []
         self.hashseeds: List[int] = [0]
+        self.twins: Dict[str, List[str]] = {}
 
 
 def enumerate_paths(adj: Dict[str, List[int]], entry: int, max_len: int, cap: int) -> List[List[str]]:
@@ -276,6 +277,17 @@ def _pool(rng: random.Random, ctx: GenCtx, faulty: bool) -> List[str]:
             pool.append(rng.choice(cands))
     if ctx.bad_inputs and rng.random() < (0.5 if faulty else 0.2):
         pool.append(rng.choice(ctx.bad_inputs))
+    # near-twins (identical text and line numbers except for one token): whatever tealer remembers
+    # from one of them under a key made of text, lines or ids is wrong for the other
+    if ctx.twins and rng.random() < 0.5:
+        have = [c for c in ctx.contracts if c in ctx.twins]
+        if have:
+            a = rng.choice(have)
+            pool.append(a)
+            pool.append(rng.choice(ctx.twins[a]))
+    for c in list(pool):
+        if c in ctx.twins and rng.random() < 0.5:
+            pool.append(rng.choice(ctx.twins[c]))
     return pool
 
 
